@@ -23,6 +23,9 @@ def one(d):
                        summary=[l for l in r.split("\n") if "tier=" in l][-1:])
     finally:
         subprocess.run(["git", "-C", "/repo", "worktree", "remove", "--force", w], capture_output=True)
+    if os.environ.get("RERUN_DRY"):      # another VERIF_SEED, say: report only
+        print(n, res.get("applies"), res.get("violations_reported"), flush=True)
+        return n, res
     m = json.load(open(os.path.join(d, "meta.json")))
     m["rerun_on_final_tree"] = res
     if "status_on_current_tree" not in m:
